@@ -660,6 +660,31 @@ def run_c08(chk):
             chk.count([t, f], nontrivial=True)
             if x != y:
                 mfail.append((t, f, "precedence / associativity / node-type test: differs from the grammar's reading", x + " expected " + y))
+    # ---- the reviewed expression grammar as reference (tools/ref/xpath.json): derivations of it and their one-character
+    #      neighbours must be read by the parser exactly as the reviewed grammar reads them (same error class / same value)
+    from gen import peggen
+    pg = peggen.Gen("xpath", rng)
+    rtexts = []
+    for _ in range(1500 if thorough else 400):
+        e = pg.sentence("parse" if "parse" in pg.prods else "expr")
+        rtexts.append(e)
+        rtexts += pg.mutants(e, 1)
+    rtexts = [e for e in rtexts if "\x00" not in e and len(e) <= 160][:4000]
+    RDOC = "<r id='1'><a x='2'>t<b/></a><!--c--><?pi d?></r>"
+    rq = [(RDOC, XP.BINDINGS, rtexts[i:i + 25]) for i in range(0, len(rtexts), 25)]
+    rimpl = lib.run_lines(lib.build_harness(), [lib.req("qfresh", t, b, *es) for t, b, es in rq], timeout=900, per_line_resume=True)
+    rref = lib.run_lines(lib.model_driver(), [lib.req("queryq", "grz", t, b, *es) for t, b, es in rq], timeout=900, per_line_resume=True)
+    ref_ok = 0
+    for (t, b, es), a, m in zip(rq, rimpl, rref):
+        fa, _, _ = _fields(a, len(es))
+        fm, _, _ = _fields(m, len(es))
+        for e, x, y in zip(es, fa, fm):
+            ref_ok += not y.startswith("err")
+            chk.count(["ref", e], nontrivial=not y.startswith("err:syntax"))
+            if x != y and not classify_ns(e, x, y):
+                mfail.append((t, e, "the parser reads this expression differently from the reviewed grammar (tools/ref/xpath.json); "
+                              "productions that differ now: %s" % [d[0] for d in lib.GRAMMAR_DIFFS["xpath"]], x + " expected " + y))
+    chk.cov["reviewed_grammar_stream"] = "%d expressions, %d readable by the reviewed grammar" % (len(rtexts), ref_ok)
     chk.cov["asts_with_distinct_spellings"] = differing
     chk.cov["spellings_per_ast"] = len(SP)
     chk.cov["disagreements_checked"] = len(tdis)
